@@ -50,6 +50,19 @@ def _marginal(rng, lo, hi, calls, force=None):
     """returns (callable, exact value function as Fraction-able floats, descriptor)"""
     import gcmpy
     kind = force or rng.choice(["table", "table", "exponential", "poisson", "power_law", "cutoff", "np-int-histogram"])
+    if kind == "longtail":
+        style = rng.choice(["dyadic", "exponential", "poisson"])
+        if style == "dyadic":
+            tab = {k: 2.0 ** -(k + 1) for k in range(lo, hi + 1)}
+            return _table_fn(tab, calls), ("dyadic-table", [lo, hi])
+        kind = style
+        par = {"exponential": [rng.choice([0.8, 1.5])], "poisson": [rng.choice([1.0, 2.5])]}[kind]
+        base = {"exponential": gcmpy.exponential, "poisson": gcmpy.poisson}[kind](*par)
+
+        def f(k):
+            calls.append(k)
+            return float(base(k))
+        return f, (kind, par)
     if kind == "np-int-histogram":
         # unnormalised integer histograms as marginals (e.g. np.bincount of an observed degree column of a large network)
         import numpy as np
@@ -256,6 +269,12 @@ def run_case(case):
         if case.get("bigbox"):
             bounds = [(0, rng.randint(257, 270)), (rng.choice([0, 1]), rng.randint(257, 262))] if T == 2 else [(0, rng.randint(41, 43))] * 3
             res.count("direct_tables_beyond_65536_entries")
+        longtail = (not sampling) and not case.get("bigbox") and T <= 2 and rng.random() < 0.2
+        if longtail:
+            # boxes wide enough that the marginals are ALMOST normalised on them (what the box cuts off lies between 1e-15 and 1e-6):
+            # the law is the NORMALISED product all the same
+            bounds = [(0, rng.randint(14, 45)) for _ in range(T)]
+            res.count("direct_tables_on_almost_normalised_marginals")
         shared = T >= 2 and rng.random() < 0.3
         if shared:
             # hostile but ordinary: the SAME callable object and the same bounds for several topologies (e.g. p = poisson(2.5); [p, p])
@@ -272,7 +291,7 @@ def run_case(case):
         for i, (lo, hi) in enumerate(bounds):
             if shared and i > 0:
                 fps.append(fps[0]); descr.append(descr[0]); continue
-            f, d = _marginal(rng, lo, hi, calls[i], force="np-int-histogram" if allint else ("table" if case.get("bigbox") else None))
+            f, d = _marginal(rng, lo, hi, calls[i], force="np-int-histogram" if allint else ("table" if case.get("bigbox") else ("longtail" if longtail else None)))
             fps.append(f); descr.append(d)
         force_dtype.clear()
         params = {N.ARR_FP: fps, N.MOTIF_SIZES: sizes, N.LOW_HIGH_DEGREE_BOUND: bounds}
